@@ -327,7 +327,47 @@ def run(ctx) -> list[Inst]:
                 + ('' if ev_ok else 'the variable body is not evaluated on the incoming targets'))
     add('variable', 'looked up by (target type, expr[name]), evaluated on the same targets', verdict, msg)
     insts += _static_setop(ctx)
+    insts += _link_all(ctx)
     return insts
+
+
+def _link_all(ctx) -> list[Inst]:
+    """LINKALL  the linking loop of AttackGraph._generate_graph evaluates the reaches expressions of EVERY node; the only
+    thing that makes a node's evaluation unnecessary is that it has no expressions.  A `continue` decided by anything
+    else (the asset has no associations, the node's type ..) drops edges: a bare `-> step` targets the asset itself."""
+    fname = 'AttackGraph._generate_graph'
+    if not ctx.prog.has_func(fname):
+        return []
+    f = ctx.prog.func(fname)
+    rel = f.module.relpath
+    construct = 'LINKALL: every node with reaches expressions is linked'
+    out = []
+    for lp in own_nodes(f.node):
+        if not isinstance(lp, ast.For):
+            continue
+        calls = [c for c in ast.walk(lp) if isinstance(c, ast.Call) and stmt_text(c.func).split('.')[-1] == EVAL
+                 and 'reaches' in stmt_text(lp, 4000)]
+        if not calls or any(isinstance(x, ast.For) and x is not lp and any(c in list(ast.walk(x)) for c in calls) and
+                            not any(c2 for c2 in [1]) for x in []):
+            continue
+        # only the loop over the graph's nodes that reads `reaches` (the linking loop), top-level statements of its body
+        if 'reaches' not in stmt_text(lp, 6000) or 'nodes' not in stmt_text(lp.iter, 100):
+            continue
+        for st in lp.body:
+            if isinstance(st, ast.If) and any(isinstance(x, ast.Continue) for b in st.body for x in ast.walk(b)) \
+                    and not any(isinstance(x, (ast.For, ast.While)) for b in st.body for x in ast.walk(b)):
+                t = stmt_text(st.test, 300)
+                if not any(w in t for w in ('reaches', 'stepExpressions', 'step_expressions', 'attributes')):
+                    out.append(Inst(
+                        RULE, f.short, construct, 'violation',
+                        msg=(f"'if {stmt_text(st.test, 60)}: continue' leaves nodes out of the linking loop for a reason other "
+                             f"than having no reaches expressions: their edges - also the ones to steps of the same asset "
+                             f"(`-> step`) - are never created"),
+                        file=rel, line=st.lineno, props=('C01', 'C02', 'C09')))
+        if not out:
+            out.append(Inst(RULE, f.short, construct, 'ok', file=rel, line=lp.lineno, props=('C01', 'C02', 'C09')))
+        break
+    return out
 
 
 def _static_setop(ctx) -> list[Inst]:
